@@ -670,6 +670,9 @@ func runFlex(c flexCase, r *pb.Rec) error {
 			if !eq(vs, keep) {
 				return fmt.Errorf("%s: argument slice modified", where)
 			}
+			for i := range vs {
+				vs[i] = -99 - i // the caller goes on using its own slice: the FlexSlice holds values, not this memory
+			}
 		case fGet:
 			v, ok := f.Get(o.A)
 			in := o.A >= 0 && o.A < len(model)
